@@ -71,16 +71,13 @@ theorem reduce_gray_sample : ∀ depth ∈ [1, 2, 4], ∀ v < 2 ^ depth,
     it is gray itself and can match no gray pixel otherwise (well-formed key: components below 2^depth). -/
 theorem rgb_to_gray_pixel (depth g : Nat) (t : Option (Nat × Nat × Nat))
     (hwf : ∀ r g' b, t = some (r, g', b) → r < 2 ^ depth ∧ g' < 2 ^ depth ∧ b < 2 ^ depth) :
-    colourOf (.rgb t) depth [g, g, g] =
-    colourOf (.gray (match t with
-                     | some (r, g', b) => if r = g' ∧ g' = b then some r else none
-                     | none => none)) depth [g] := by
+    colourOf (.rgb t) depth [g, g, g] = colourOf (grayCtOf (.rgb t)) depth [g] := by
   cases t with
-  | none => simp [colourOf]
+  | none => simp [colourOf, grayCtOf]
   | some k =>
     obtain ⟨r, g', b⟩ := k
     obtain ⟨hr, hg, hb⟩ := hwf r g' b rfl
-    simp only [colourOf, List.getD_cons_zero, List.getD_cons_succ, Option.map_some, keyComponent,
+    simp only [grayCtOf, colourOf, List.getD_cons_zero, List.getD_cons_succ, Option.map_some, keyComponent,
       Nat.mod_eq_of_lt hr, Nat.mod_eq_of_lt hg, Nat.mod_eq_of_lt hb]
     congr 1
     by_cases h : r = g' ∧ g' = b
@@ -228,8 +225,299 @@ theorem depth16to8_lossless (i j : Img) (n : Nat)
       exact depth16to8_pixel i.ihdr.ct _ hs hct hkey
   · simp [hd] at h
 
+/-- RGB(A)→gray(+alpha), one stored pixel with r = g = b: dropping the first two samples keeps the meaning. -/
+theorem rgb_to_gray_px (ct : ColorType) (d : Nat) (px : Bytes) (hrgb : ct.isRgb = true)
+    (hlen : px.length = bdOf d * ct.channels) (hg : isGrayPx (bdOf d) px = true)
+    (hkey : keyBelow (2 ^ d) ct) :
+    colourOf ct d (samplesOf d px) = colourOf (grayCtOf ct) d (samplesOf d (px.drop (2 * bdOf d))) := by
+  by_cases hd : d = 16
+  · subst hd
+    have hb : bdOf 16 = 2 := rfl
+    rw [hb] at hlen hg ⊢
+    cases ct with
+    | rgb t =>
+      obtain ⟨r1, r2, g1, g2, b1, b2, rfl⟩ := length_six px (by simpa [ColorType.channels] using hlen)
+      simp [isGrayPx] at hg
+      obtain ⟨⟨rfl, rfl⟩, rfl, rfl⟩ := hg
+      have := rgb_to_gray_pixel 16 (r1.toNat * 256 + r2.toNat) t (by
+        intro r g' b ht; subst ht; exact hkey)
+      simpa [samplesOf, pairs16, grayCtOf] using this
+    | rgba =>
+      obtain ⟨r1, r2, g1, g2, b1, b2, a1, a2, rfl⟩ := length_eight px (by simpa [ColorType.channels] using hlen)
+      simp [isGrayPx] at hg
+      obtain ⟨⟨rfl, rfl⟩, rfl, rfl⟩ := hg
+      simp [samplesOf, pairs16, grayCtOf, colourOf]
+    | gray t => simp [ColorType.isRgb] at hrgb
+    | grayAlpha => simp [ColorType.isRgb] at hrgb
+    | indexed p => simp [ColorType.isRgb] at hrgb
+  · have hb : bdOf d = 1 := by simp [bdOf, hd]
+    rw [hb] at hlen hg ⊢
+    cases ct with
+    | rgb t =>
+      obtain ⟨r, g, b, rfl⟩ := length_three px (by simpa [ColorType.channels] using hlen)
+      simp [isGrayPx] at hg
+      obtain ⟨rfl, rfl⟩ := hg
+      have := rgb_to_gray_pixel d r.toNat t (by
+        intro r' g' b ht; subst ht; exact hkey)
+      simpa [samplesOf, hd, grayCtOf] using this
+    | rgba =>
+      obtain ⟨r, g, b, a, rfl⟩ := length_four px (by simpa [ColorType.channels] using hlen)
+      simp [isGrayPx] at hg
+      obtain ⟨rfl, rfl⟩ := hg
+      simp [samplesOf, hd, grayCtOf, colourOf]
+    | gray t => simp [ColorType.isRgb] at hrgb
+    | grayAlpha => simp [ColorType.isRgb] at hrgb
+    | indexed p => simp [ColorType.isRgb] at hrgb
+
+/-- **RGB(A) → grayscale(+alpha) is lossless for the whole image**: whenever the reduction applies
+    the result shows the same picture (any size, 8 or 16 bits, with or without a colour key). -/
+theorem rgb_to_gray_lossless (i j : Img) (n : Nat)
+    (hlen : i.data.length = n * i.bppBytes) (hkey : keyBelow (2 ^ i.ihdr.depth) i.ihdr.ct)
+    (h : reducedRgbToGrayscale i = some j) : samePicture i j := by
+  unfold reducedRgbToGrayscale at h
+  cases hrgb : i.ihdr.ct.isRgb
+  case false => simp [hrgb] at h
+  case true =>
+    simp only [hrgb, Bool.not_true, Bool.false_eq_true, if_false] at h
+    have hbd : i.bytesPerChannel = bdOf i.ihdr.depth := rfl
+    have hbpp : i.channelsPerPixel * i.bytesPerChannel = i.bppBytes := Nat.mul_comm _ _
+    rw [hbpp, hbd] at h
+    cases hall : (chunksExact i.bppBytes i.data).all (isGrayPx (bdOf i.ihdr.depth))
+    case false => simp [hall] at h
+    case true =>
+      simp only [hall, if_true, Option.some.injEq] at h
+      subst h
+      refine ⟨rfl, rfl, rfl, ?_⟩
+      have hch : 2 ≤ i.ihdr.ct.channels ∧ (grayCtOf i.ihdr.ct).channels = i.ihdr.ct.channels - 2 := by
+        cases hc : i.ihdr.ct <;> simp [hc, ColorType.isRgb] at hrgb <;> simp [grayCtOf, ColorType.channels]
+      have hbpos : 0 < bdOf i.ihdr.depth := by unfold bdOf; split <;> decide
+      have hbb : i.bppBytes = bdOf i.ihdr.depth * i.ihdr.ct.channels := rfl
+      have hbppos : 0 < i.bppBytes := by rw [hbb]; exact Nat.mul_pos hbpos (by omega)
+      obtain ⟨_, hpxlen⟩ := flatten_chunksExact i.bppBytes hbppos n i.data hlen
+      have hj : chunksExact (bdOf i.ihdr.depth * (grayCtOf i.ihdr.ct).channels)
+          ((chunksExact i.bppBytes i.data).flatMap (·.drop (2 * bdOf i.ihdr.depth))) =
+          (chunksExact i.bppBytes i.data).map (·.drop (2 * bdOf i.ihdr.depth)) := by
+        apply chunks_flatMap
+        · exact Nat.mul_pos hbpos (by
+            cases hc : i.ihdr.ct <;> simp [hc, ColorType.isRgb] at hrgb <;> simp [grayCtOf, ColorType.channels])
+        · intro px hpx
+          rw [List.length_drop, hpxlen px hpx, hbb, hch.2, Nat.mul_sub]
+          rw [Nat.mul_comm 2]
+      simp only [pixelColours, storagePixels]
+      have hjb : (⟨{ i.ihdr with ct := grayCtOf i.ihdr.ct },
+          (chunksExact i.bppBytes i.data).flatMap (·.drop (2 * bdOf i.ihdr.depth))⟩ : Img).bppBytes =
+          bdOf i.ihdr.depth * (grayCtOf i.ihdr.ct).channels := rfl
+      rw [hjb, hj, List.map_map]
+      apply List.map_congr_left
+      intro px hpx
+      simp only [Function.comp]
+      exact rgb_to_gray_px i.ihdr.ct i.ihdr.depth px hrgb (by rw [hpxlen px hpx, hbb])
+        (List.all_eq_true.mp hall px hpx) hkey
+
+/-- dropping an opaque alpha channel, one stored pixel (8- or 16-bit samples) -/
+theorem drop_alpha_px (ct : ColorType) (d : Nat) (px : Bytes) (ha : ct.hasAlpha = true)
+    (hd : d = 8 ∨ d = 16) (hlen : px.length = bdOf d * ct.channels)
+    (hop : ((px.drop (bdOf d * ct.channels - bdOf d)).any fun x => decide (x ≠ 255)) = false) :
+    colourOf ct d (samplesOf d px) =
+      colourOf (noAlphaCt ct) d (samplesOf d (px.take (bdOf d * ct.channels - bdOf d))) := by
+  have hall := any_ne_false _ hop
+  rcases hd with rfl | rfl
+  · have hb : bdOf 8 = 1 := rfl
+    rw [hb] at hlen hall ⊢
+    cases ct with
+    | grayAlpha =>
+      obtain ⟨g, a, rfl⟩ := length_two px (by simpa [ColorType.channels] using hlen)
+      have : a = 255 := hall a (by simp [ColorType.channels])
+      subst this
+      have := drop_opaque_alpha_ga 8 g.toNat (by decide)
+      simpa [samplesOf, noAlphaCt, ColorType.channels] using this
+    | rgba =>
+      obtain ⟨r, g, b, a, rfl⟩ := length_four px (by simpa [ColorType.channels] using hlen)
+      have : a = 255 := hall a (by simp [ColorType.channels])
+      subst this
+      have := drop_opaque_alpha_rgba 8 r.toNat g.toNat b.toNat (by decide)
+      simpa [samplesOf, noAlphaCt, ColorType.channels] using this
+    | gray t => simp [ColorType.hasAlpha] at ha
+    | rgb t => simp [ColorType.hasAlpha] at ha
+    | indexed p => simp [ColorType.hasAlpha] at ha
+  · have hb : bdOf 16 = 2 := rfl
+    rw [hb] at hlen hall ⊢
+    cases ct with
+    | grayAlpha =>
+      obtain ⟨g1, g2, a1, a2, rfl⟩ := length_four px (by simpa [ColorType.channels] using hlen)
+      have e1 : a1 = 255 := hall a1 (by simp [ColorType.channels])
+      have e2 : a2 = 255 := hall a2 (by simp [ColorType.channels])
+      subst e1 e2
+      have := drop_opaque_alpha_ga 16 (g1.toNat * 256 + g2.toNat) (by decide)
+      simpa [samplesOf, pairs16, noAlphaCt, ColorType.channels] using this
+    | rgba =>
+      obtain ⟨r1, r2, g1, g2, b1, b2, a1, a2, rfl⟩ := length_eight px (by simpa [ColorType.channels] using hlen)
+      have e1 : a1 = 255 := hall a1 (by simp [ColorType.channels])
+      have e2 : a2 = 255 := hall a2 (by simp [ColorType.channels])
+      subst e1 e2
+      have := drop_opaque_alpha_rgba 16 (r1.toNat * 256 + r2.toNat) (g1.toNat * 256 + g2.toNat)
+        (b1.toNat * 256 + b2.toNat) (by decide)
+      simpa [samplesOf, pairs16, noAlphaCt, ColorType.channels] using this
+    | gray t => simp [ColorType.hasAlpha] at ha
+    | rgb t => simp [ColorType.hasAlpha] at ha
+    | indexed p => simp [ColorType.hasAlpha] at ha
+
+/-- **Dropping a fully opaque alpha channel is lossless for the whole image** (no alpha
+    optimisation): whenever the reduction applies the result shows the same picture. -/
+theorem drop_alpha_lossless (i j : Img) (n : Nat)
+    (hlen : i.data.length = n * i.bppBytes) (hd : i.ihdr.depth = 8 ∨ i.ihdr.depth = 16)
+    (h : reducedAlphaChannel i false = some j) : samePicture i j := by
+  obtain ⟨ha, hop, rfl⟩ := reducedAlpha_false_char i j h
+  refine ⟨rfl, rfl, rfl, ?_⟩
+  have hbpos : 0 < bdOf i.ihdr.depth := by unfold bdOf; split <;> decide
+  have hbb : i.bppBytes = bdOf i.ihdr.depth * i.ihdr.ct.channels := rfl
+  have hch : 2 ≤ i.ihdr.ct.channels ∧ (noAlphaCt i.ihdr.ct).channels = i.ihdr.ct.channels - 1 := by
+    cases hc : i.ihdr.ct <;> simp [hc, ColorType.hasAlpha] at ha <;> simp [noAlphaCt, ColorType.channels]
+  have hbppos : 0 < i.bppBytes := by rw [hbb]; exact Nat.mul_pos hbpos (by omega)
+  obtain ⟨_, hpxlen⟩ := flatten_chunksExact i.bppBytes hbppos n i.data hlen
+  have hj : chunksExact (bdOf i.ihdr.depth * (noAlphaCt i.ihdr.ct).channels)
+      ((chunksExact i.bppBytes i.data).flatMap (·.take (i.bppBytes - bdOf i.ihdr.depth))) =
+      (chunksExact i.bppBytes i.data).map (·.take (i.bppBytes - bdOf i.ihdr.depth)) := by
+    apply chunks_flatMap
+    · exact Nat.mul_pos hbpos (by rw [hch.2]; omega)
+    · intro px hpx
+      rw [List.length_take, hpxlen px hpx, hbb, hch.2, Nat.mul_sub, Nat.mul_one]
+      exact Nat.min_eq_left (Nat.sub_le _ _)
+  simp only [pixelColours, storagePixels]
+  have hjb : (⟨{ i.ihdr with ct := noAlphaCt i.ihdr.ct },
+      (chunksExact i.bppBytes i.data).flatMap (·.take (i.bppBytes - bdOf i.ihdr.depth))⟩ : Img).bppBytes =
+      bdOf i.ihdr.depth * (noAlphaCt i.ihdr.ct).channels := rfl
+  rw [hjb, hj, List.map_map]
+  apply List.map_congr_left
+  intro px hpx
+  simp only [Function.comp]
+  have := drop_alpha_px i.ihdr.ct i.ihdr.depth px ha hd (by rw [hpxlen px hpx, hbb]) (by
+    rw [← hbb]; exact hop px hpx)
+  rw [← hbb] at this
+  exact this
+
+/-- the palette entry made from a stored pixel means what the pixel meant -/
+theorem paletteEntry_meaning (ct : ColorType) (px : Bytes) (hct : ct.isIndexed = false)
+    (hlen : px.length = ct.channels) :
+    entryPx (paletteEntry ct px) = colourOf ct 8 (px.map (·.toNat)) := by
+  cases ct with
+  | indexed p => simp [ColorType.isIndexed] at hct
+  | grayAlpha =>
+    obtain ⟨g, a, rfl⟩ := length_two px (by simpa [ColorType.channels] using hlen)
+    simp [entryPx, paletteEntry, colourOf, scaleTo16_8]
+  | rgba =>
+    obtain ⟨r, g, b, a, rfl⟩ := length_four px (by simpa [ColorType.channels] using hlen)
+    simp [entryPx, paletteEntry, colourOf, scaleTo16_8]
+  | gray t =>
+    obtain ⟨g, t1, rfl, h1⟩ := length_succ px 0 (by simpa [ColorType.channels] using hlen)
+    have := List.eq_nil_of_length_eq_zero h1
+    subst this
+    cases t with
+    | none => simp [entryPx, paletteEntry, colourOf, scaleTo16_8]
+    | some k =>
+      have hk := ofNat_eq_iff k g
+      simp only [entryPx, paletteEntry, colourOf, scaleTo16_8, List.map_cons, List.map_nil,
+        List.getD_cons_zero, Option.map_some, keyComponent, ne_eq, Option.some.injEq]
+      by_cases hh : UInt8.ofNat k = g
+      · have := hk.mp hh
+        simp [hh, this]
+      · have : ¬ (k % 256 = g.toNat) := fun x => hh (hk.mpr x)
+        have hh' : ¬ (g = UInt8.ofNat k) := fun x => hh x.symm
+        simp [hh', this]
+  | rgb t =>
+    obtain ⟨r, g, b, rfl⟩ := length_three px (by simpa [ColorType.channels] using hlen)
+    cases t with
+    | none => simp [entryPx, paletteEntry, colourOf, scaleTo16_8]
+    | some k =>
+      obtain ⟨kr, kg, kb⟩ := k
+      have hr := ofNat_eq_iff kr r
+      have hg := ofNat_eq_iff kg g
+      have hb := ofNat_eq_iff kb b
+      simp only [entryPx, paletteEntry, colourOf, scaleTo16_8, List.map_cons, List.map_nil,
+        List.getD_cons_zero, List.getD_cons_succ, Option.map_some, keyComponent, ne_eq,
+        Option.some.injEq, Prod.mk.injEq]
+      by_cases hh : (r = UInt8.ofNat kr ∧ g = UInt8.ofNat kg ∧ b = UInt8.ofNat kb)
+      · obtain ⟨h1, h2, h3⟩ := hh
+        have e1 := hr.mp h1.symm
+        have e2 := hg.mp h2.symm
+        have e3 := hb.mp h3.symm
+        simp [← h1, ← h2, ← h3, e1, e2, e3]
+      · have : ¬ (kr % 256 = r.toNat ∧ kg % 256 = g.toNat ∧ kb % 256 = b.toNat) := by
+          intro ⟨x1, x2, x3⟩
+          exact hh ⟨(hr.mpr x1).symm, (hg.mpr x2).symm, (hb.mpr x3).symm⟩
+        simp [hh, this]
+
+/-- **Conversion to a palette is lossless for the whole image**: whenever `reduced_to_indexed`
+    applies (8-bit gray, gray+alpha, RGB or RGBA input, with or without a colour key, at most 256
+    distinct pixels), every palette index of the result means what the pixel it replaces meant. -/
+theorem to_indexed_lossless (i j : Img) (ag : Bool) (n : Nat)
+    (hlen : i.data.length = n * i.bppBytes)
+    (h : reducedToIndexed i ag = some j) : samePicture i j := by
+  unfold reducedToIndexed at h
+  by_cases hd : i.ihdr.depth = 8
+  · simp only [hd, ne_eq, not_true_eq_false, if_false] at h
+    cases hix : i.ihdr.ct.isIndexed
+    case true => simp [hix] at h
+    case false =>
+      simp only [hix, Bool.false_eq_true, if_false] at h
+      split at h
+      · cases h
+      · cases hb : buildPalette (chunksExact i.ihdr.ct.channels i.data) [] [] with
+        | none => simp [hb] at h
+        | some pr =>
+          obtain ⟨pmap, raw⟩ := pr
+          simp only [hb, Option.some.injEq] at h
+          subst h
+          obtain ⟨idxs, h1, h2, _, _⟩ := buildPalette_spec _ [] [] pmap raw hb (by simp)
+          simp only [List.reverse_nil, List.nil_append] at h1
+          subst h1
+          refine ⟨rfl, rfl, rfl, ?_⟩
+          have hbb : i.bppBytes = i.ihdr.ct.channels := by
+            simp [Img.bppBytes, Img.bytesPerChannel, Img.channelsPerPixel, hd]
+          have hcpos : 0 < i.ihdr.ct.channels := by cases i.ihdr.ct <;> simp [ColorType.channels]
+          rw [hbb] at hlen
+          obtain ⟨_, hpxlen⟩ := flatten_chunksExact i.ihdr.ct.channels hcpos n i.data hlen
+          have hjb : Img.bppBytes ⟨⟨i.ihdr.width, i.ihdr.height,
+              .indexed (pmap.map (paletteEntry i.ihdr.ct)), 8, i.ihdr.interlaced⟩, raw⟩ = 1 := rfl
+          simp only [pixelColours, storagePixels]
+          rw [hjb, hbb, chunksExact_one, List.map_map]
+          -- right-hand side: a function of `pmap[b]?`; left-hand side: the same function of `some px`
+          let F : Option Bytes → Px := fun o => match o.map (paletteEntry i.ihdr.ct) with
+            | some e => entryPx e
+            | none => ⟨0, 0, 0, 65535⟩
+          have hr : raw.map ((fun px => colourOf (.indexed (pmap.map (paletteEntry i.ihdr.ct))) 8 (samplesOf 8 px)) ∘ fun b => [b]) =
+              (raw.map (fun b => pmap[b.toNat]?)).map F := by
+            rw [List.map_map]
+            apply List.map_congr_left
+            intro b _
+            simp only [Function.comp, samplesOf, List.map_cons, List.map_nil, F]
+            rw [if_neg (by decide : ¬ ((8 : Nat) = 16)), colourOf_indexed, List.getElem?_map]
+            all_goals (cases pmap[b.toNat]? <;> rfl)
+          have hl : (chunksExact i.ihdr.ct.channels i.data).map (fun px => colourOf i.ihdr.ct i.ihdr.depth (samplesOf i.ihdr.depth px)) =
+              ((chunksExact i.ihdr.ct.channels i.data).map some).map F := by
+            rw [List.map_map]
+            apply List.map_congr_left
+            intro px hpx
+            simp only [Function.comp, F, Option.map_some, hd]
+            rw [paletteEntry_meaning i.ihdr.ct px hix (hpxlen px hpx)]
+            simp [samplesOf]
+          rw [hl, ← h2]
+          exact hr.symm
+  · simp [hd] at h
+
 /-- Non-vacuity: a concrete 16-bit keyed pixel -/
 example : colourOf (.gray (some 0x3434)) 16 [0x34 * 256 + 0x34] = ⟨0x3434, 0x3434, 0x3434, 0⟩ ∧
           colourOf (trns16to8 (.gray (some 0x3434)) exactKey) 8 [0x34] = ⟨0x3434, 0x3434, 0x3434, 0⟩ := by decide
+
+/-! Non-vacuity of the image-level theorems: concrete images on which each reduction applies (and
+    whose data length is a whole number of pixels, keys below the bound). -/
+example : reducedBitDepth16to8 ⟨⟨2, 1, .gray (some 0x3434), 16, false⟩, [0x34, 0x34, 0x12, 0x12]⟩ false =
+    some ⟨⟨2, 1, .gray (some 0x34), 8, false⟩, [0x34, 0x12]⟩ := by decide
+example : reducedRgbToGrayscale ⟨⟨2, 1, .rgb (some (7, 7, 7)), 8, false⟩, [7, 7, 7, 9, 9, 9]⟩ =
+    some ⟨⟨2, 1, .gray (some 7), 8, false⟩, [7, 9]⟩ := by decide
+example : reducedAlphaChannel ⟨⟨1, 2, .rgba, 8, false⟩, [1, 2, 3, 255, 4, 5, 6, 255]⟩ false =
+    some ⟨⟨1, 2, .rgb none, 8, false⟩, [1, 2, 3, 4, 5, 6]⟩ := by decide
+example : reducedToIndexed ⟨⟨3, 1, .rgb (some (4, 5, 6)), 8, false⟩, [1, 2, 3, 4, 5, 6, 1, 2, 3]⟩ true =
+    some ⟨⟨3, 1, .indexed [⟨1, 2, 3, 255⟩, ⟨4, 5, 6, 0⟩], 8, false⟩, [0, 1, 0]⟩ := by decide
 
 end OxiModel.C01
